@@ -1,6 +1,7 @@
 package props
 
 import (
+	"errors"
 	"fmt"
 	"time"
 
@@ -17,7 +18,11 @@ import (
 // or the broker goes on with a violation that makes the client leave the
 // connection under the writer. Whatever the broker does: no panic, the publish
 // call returns, and the client goes on to receive.
-func c13AckAhead(c *run.Ctx, level int, prior int, accept int, acks string, outcome string) {
+//
+// The check of C13 judges the incident itself; the check of C01 (prop "C01")
+// judges what comes after it: a publish accepted on the connection in working
+// order must still be written.
+func c13AckAhead(c *run.Ctx, prop string, level int, prior int, accept int, acks string, outcome string) {
 	label := fmt.Sprintf("acknowledgement ahead of the write: level %d, %d earlier transfers, %s after %d bytes of the PUBLISH went out, then the write %s", level, prior, acks, accept, outcome)
 	w := sim.NewWorld(c.Rng.Int63())
 	defer w.Shutdown()
@@ -160,12 +165,38 @@ func c13AckAhead(c *run.Ctx, level int, prior int, accept int, acks string, outc
 			}
 		}
 	}
+	// and to transmit: a publish accepted now goes out on the connection in use
+	after := &sim.Pub{Err: errors.New("not made")}
+	if prop == "C01" {
+		after = d.Publish(level, false, 5)
+	}
+	if after.Err == nil {
+		written := func() bool {
+			for _, cn := range w.Conns {
+				pk, _, _ := wire.ParseStream(cn.Out, true)
+				for _, q := range pk {
+					if q.Type == wire.PUBLISH && q.Topic == after.Topic {
+						return true
+					}
+				}
+			}
+			return false
+		}
+		if !w.WaitUntil(sim.StepTimeout, written) {
+			wedged, report := w.Diagnose(1500 * time.Millisecond)
+			if wedged {
+				c.Violate("accepted-publish-never-written", label+": a publish accepted afterwards, on a connection in working order, is never written", map[string]any{"stacks": report, "trace_tail": w.TraceTail(60)})
+			} else {
+				c.Inconclusive(label + ": later publish slow")
+			}
+		}
+	}
 	// a transfer counts as complete only with its final acknowledgement in the input
 	w.Mu.Lock()
 	closed := p.ClosedSeq != 0
 	w.Mu.Unlock()
 	final := level == 1 || acks == "both acknowledgements"
-	if closed && !final {
+	if closed && !final && prop == "C13" {
 		c.Violate("forged-completion", label+": the exchange closed without the final acknowledgement", map[string]any{"trace_tail": w.TraceTail(60)})
 	}
 	c.Count("acks_ahead_of_write", 1)
